@@ -120,7 +120,7 @@ def loop (gen : GenFn) (calls : List Call) (env : Derived) :
     let us := sortStrings us
     let file : Option (List Fn) := if reg = [] then none else some reg   -- Print, or Delete when nothing was printed
     if us = [] then .ok file
-    else if prev = some us then (if reg = [] then .error "cannot generate" else .ok file)
+    else if prev = some us then .error "cannot generate"   -- 5fa8037 (F131): whether or not this pass generated again
     else if reg = [] ∧ 1 ≤ passes then .error "cannot generate"
     else loop gen calls env fuel (passes + 1) (fileOf reg ++ env) (some us)
 
